@@ -260,6 +260,29 @@ fn build(seed: u64, i: usize) -> Built {
             nodes[k].defs.push(d);
         }
     }
+    // two byte-identical files in two directories whose (identical) relative include leads
+    // to two different files: `v1/index.circom` and `v2/index.circom`, each `include "impl.circom"`
+    let mut identical: Option<(usize, usize)> = None;
+    if r.chance(1, 10) {
+        let base_n = nodes.len();
+        for (v, d) in ["v1", "v2"].iter().enumerate() {
+            nodes.push(Node { dir: d.to_string(), name: "index.circom".into(), defs: vec![], includes: vec![], bad_includes: vec![] });
+            let mut imp = Node { dir: d.to_string(), name: "impl.circom".into(), defs: vec![], includes: vec![], bad_includes: vec![] };
+            let reg = Registry::default();
+            imp.defs.push(gen::gen_template(&mut r_defs, &knobs, &reg, &format!("Impl{v}")));
+            nodes.push(imp);
+        }
+        // f0 includes both index files, each index file includes the impl.circom beside it
+        for v in 0..2 {
+            let idx = base_n + 2 * v;
+            let sp = format!("v{}/index.circom", v + 1);
+            nodes[0].includes.push((idx, sp));
+            nodes[idx].includes.push((idx + 1, "impl.circom".into()));
+        }
+        identical = Some((base_n, base_n + 2));
+        shapes.push("identical-files-with-relative-includes");
+    }
+    let n = nodes.len();
     // libraries
     let mut world = World::default();
     let mut libs: Vec<String> = Vec::new();
@@ -354,8 +377,9 @@ fn build(seed: u64, i: usize) -> Built {
     // an unresolvable include
     let mut bad = None;
     let mut twin_bad: Option<(usize, usize, String)> = None;
-    if r.chance(1, 4) {
-        let k = r.usize(n);
+    let bad_k = r.usize(n);
+    if r.chance(1, 4) && identical.map(|(a, b)| bad_k != a && bad_k != b).unwrap_or(true) {
+        let k = bad_k;
         let mut s = r.pick(&["nonexistent.circom", "./missing/x.circom", "../nowhere.circom", "lib/ghost.circom"]).to_string();
         // near misses of the library rules: a library file only answers to its bare name, a
         // library directory never answers to a spelling that starts with a dot
@@ -386,7 +410,7 @@ fn build(seed: u64, i: usize) -> Built {
         // as under a shared licence header): each statement gets its own error
         if n >= 2 && r.chance(1, 3) {
             let k2 = (k + 1 + r.usize(n - 1)) % n;
-            if !odd_ext.contains(&k2) && !odd_ext.contains(&k) {
+            if !odd_ext.contains(&k2) && !odd_ext.contains(&k) && identical.map(|(a, b)| k2 != a && k2 != b).unwrap_or(true) {
                 nodes[k2].bad_includes.push(s.clone());
                 twin_bad = Some((k, k2, s.clone()));
                 shapes.push("unresolvable-include:same-spelling-in-two-files");
@@ -394,6 +418,18 @@ fn build(seed: u64, i: usize) -> Built {
         }
         bad = Some((k, s));
         shapes.push("unresolvable-include");
+    }
+    // the first named file starts with a byte-order mark. Today such a file is rejected as a
+    // whole (nothing is judged then); a tool that accepts it must still get positions right
+    let bom0 = r.chance(1, 20) && identical.is_none();
+    if bom0 {
+        if nodes[0].bad_includes.is_empty() {
+            nodes[0].bad_includes.push("nonexistent.circom".into());
+            if bad.is_none() {
+                bad = Some((0, "nonexistent.circom".into()));
+            }
+        }
+        shapes.push("byte-order-mark-in-a-named-file");
     }
     // files
     let style = Style::random(&mut r_style);
@@ -420,6 +456,14 @@ fn build(seed: u64, i: usize) -> Built {
         world.files.insert(p, b);
     }
     world.dirs.push("sub".into());
+    if bom0 {
+        let t = format!("{}{}", '\u{feff}', world.get_text(&nodes[0].path()).unwrap_or(""));
+        world.put(&nodes[0].path(), &t);
+    }
+    if let Some((ia, ib)) = identical {
+        let t = world.get_text(&nodes[ia].path()).unwrap_or("").to_string();
+        world.put(&nodes[ib].path(), &t);
+    }
     // align the two statements of the twin on one byte offset: blanks at the end of line 1
     if let Some((ka, kb, sp)) = &twin_bad {
         let off = |w: &World, k: usize| -> Option<usize> {
@@ -662,6 +706,13 @@ fn judge(runner: &Runner, b: &Built, o: &Outcome, full: bool) -> Option<(String,
         return Some(("no-termination:event-budget".into(), format!("intercepted-call budget exceeded; shapes {:?}", b.shapes)));
     }
     let out = parse_stdout(&o.stdout);
+    if b.shapes.contains(&"byte-order-mark-in-a-named-file") {
+        let p0 = b.nodes[0].path();
+        let rejected = out.diags.iter().any(|d| d.severity == "error" && d.locs.first().map(|l| rel_path(&l.path) == p0 && l.line == 1 && l.col == 1).unwrap_or(false));
+        if rejected {
+            return None;
+        }
+    }
     // (b) each reachable file consumed exactly once, nothing else read
     let (counts, _) = consumption_counts(o, &root);
     for f in rr.reachable.iter().filter(|_| full) {
@@ -1004,7 +1055,7 @@ pub fn run(env: &Env) -> i32 {
     {
         let all = ["cycle", "self-include", "diamond", "double-spelling", "symlinked-file", "symlinked-dir", "library-dir", "second-library-dir", "library-file", "via-library-dir", "via-library-file",
                    "library-file-shadowed-by-local-file", "same-name-in-two-directories", "local-candidate-fails-with-other-errno", "unresolvable-include", "unsupported-pragma-in-the-graph", "directory-input",
-                   "included-file-with-another-extension", "unresolvable-include:directory-before-library-file-name", "unresolvable-include:dot-spelling-of-library-name", "unresolvable-include:same-spelling-in-two-files", "unresolvable-include:bare-name-of-a-file-elsewhere", "directory-named-like-a-file-stem", "names-differing-in-case-only"];
+                   "included-file-with-another-extension", "unresolvable-include:directory-before-library-file-name", "unresolvable-include:dot-spelling-of-library-name", "unresolvable-include:same-spelling-in-two-files", "unresolvable-include:bare-name-of-a-file-elsewhere", "directory-named-like-a-file-stem", "names-differing-in-case-only", "identical-files-with-relative-includes", "byte-order-mark-in-a-named-file"];
         let mut probes: Vec<(&str, usize)> = all.iter().map(|k| (*k, shapes.get(k).copied().unwrap_or(0))).collect();
         probes.push(("damaged or unreadable include", results.iter().map(|r| r.faults_fired).sum::<usize>()));
         probes.push(("included-only file that does not parse, judged", results.iter().map(|r| r.syntactic_damage_judged).sum::<usize>()));
